@@ -168,6 +168,12 @@ func (m *MonC10) enumerateBlock(w *World, i int, pinK int64) {
 	log := d0.TakeLog()
 	W := int(d0.Seq() - pre)
 	m.blocksEnumerated++
+	if hh := req.Time.UTC().Hour(); uint64(h)%w.Sc.Node.Period == 1 && hh >= 12 && hh < 15 {
+		w.Probe("c10_block_in_price_update_window_enumerated")
+	}
+	if len(req.Txs) > 0 {
+		w.Probe("c10_block_with_txs_enumerated")
+	}
 	for k := 1; k <= W+1; k++ { // k = W+1: every write done, the process dies right after Commit returns
 		if pinK != 0 && int64(k) != pinK {
 			continue
@@ -294,9 +300,13 @@ func init() {
 	register(&PropSpec{ID: "C10", Level: "fault_enumeration",
 		Rule: "for a seeded history, for each selected block h (all blocks when c10_all, otherwise a sample biased to payout / price-update / validator-update / evidence blocks) and for EVERY k in 1..W_h (W_h = number of durable writes of Commit(h), measured by a dry run): execute h on a fresh node over a clone of the disk, die before write k, restart, apply Tendermint's handshake table (store height h, state height h-1), replay what Tendermint would resend, then run the following blocks and compare responses, hashes and durable state with the uncrashed reference; distinct non-trivial case = distinct write class at which the crash was placed",
 		Make: func(r *rand.Rand, seed int64, chain int, tier string) *Scenario {
-			p := GeneralProfile()
+			flavour := r.Intn(5)
+			p := flavourProfile(flavour)
 			p.PClockJump = 0.08
-			sc := baseScenario("C10", r, seed, chain, tier, p, nil)
+			sc := baseScenario("C10", r, seed, chain, tier, p, func(g *GenCfg, n *NodeCfg) { flavourGen(r, flavour, g, n) })
+			if flavour == 3 {
+				steerPriceWindow(r, sc, false)
+			}
 			n := 16 + r.Intn(24)
 			if tier == "thorough" {
 				n = 30 + r.Intn(30)
@@ -320,6 +330,6 @@ func init() {
 			}
 			return nil
 		},
-		ExpectProbes: []string{"c10_crash_point", "c10_recovered_by_replay", "c10_recovered_without_replay"},
+		ExpectProbes: []string{"c10_crash_point", "c10_recovered_by_replay", "c10_recovered_without_replay", "c10_block_in_price_update_window_enumerated", "c10_block_with_txs_enumerated"},
 	})
 }
